@@ -2,6 +2,7 @@ import PhyModel.Proofs.StoreWF_StepDense
 import PhyModel.Proofs.StoreWF_Labels
 import PhyModel.Proofs.C07Example
 import PhyModel.Proofs.StoreDataMove
+import PhyModel.Proofs.GraphExample
 /-! # C07 — every tree is a well-formed forest and no edit loses or duplicates data (store model)
 
 Property theorems only; the proofs are in `Proofs/StoreWF_*.lean` (one file per operation on top of
@@ -15,7 +16,8 @@ and no data point is listed twice; `Full` — every clone has its `_data` key; `
 and `_data` list agree including order.  `Legal sys op` holds the side conditions under which the
 samplers call an edit (`Dense` names and fresh data for `create_root_node`, a subtree of the same
 tree for `remove_subtree`, disjoint data for `add_subtree`).  Graph *shape* (one parent per clone,
-reachability) is structural in the model (DESIGN section 4, L4).
+reachability) is structural in the store model; it is proved for the primitive-level digraph model
+`Model/Graph.lean` in the last section of this file ("graph shape").
 
 The composed move theorems (`subtree_move_conserves`, `dp_move_conserves`) and `wfB ↔ WF` are in
 separate files. -/
@@ -302,5 +304,92 @@ example : (WF exS ∧ Full exS) ∧ exS.removeDataPointFromNode exData 2 0 = som
   ⟨⟨(wfB_iff _).1 (by decide +kernel), by unfold Full; decide +kernel⟩,
     some_getD _ _ (by decide +kernel), some_getD _ _ (by decide +kernel), by decide +kernel⟩
 
+
+/-! ## graph shape: each clone has exactly one parent and is reachable from the virtual root
+
+`Model/Graph.lean` models the rustworkx graph inside `Tree` as live indices + edge list (shape is *not*
+structural there) and every shape-changing `Tree` method as the sequence of `PyDiGraph` calls `tree.py`
+makes, with the indices rustworkx hands out as parameters.  `IsForest g` (`Proofs/GraphInv.lean`): 0 is
+live and is no edge's target, edges join live nodes, every other live node occurs exactly once as a
+target in the edge list, every live node is reachable from 0. -/
+section GraphShape
+open PhyModel.Graph (DG IsForest Reach GOp GSys GLegal gInit gStep gRun gCreateRootNode gGetSubtree
+  gRemoveSubtree gAddSubtree gFromDict gCopy isForestB)
+
+/-- `Tree(grid_size)` -/
+theorem forest_init : IsForest gInit := Graph.isForest_init
+
+/-- `create_root_node`: `add_node`, `add_edge(root, new)`, per child `remove_edge(root, child)`;
+`add_edge(new, child)`.  Success of the primitives implies that `new` was not in use and that the children
+are distinct top-level clones; that none of them is the node being created is the call sites' -/
+theorem forest_createRootNode {g g' : DG} {new : ℕ} {kids : List ℕ} (hf : IsForest g)
+    (hk : ∀ c ∈ kids, c ≠ new) (h : gCreateRootNode g new kids = some g') : IsForest g' :=
+  Graph.forest_createRootNode hf hk h
+
+/-- `get_subtree`: `subgraph([r] + descendants(r))` composed under a fresh root, for any numbering
+(`ρ₁` of the subgraph, `ρ₂` of the composition) that the model accepts (no collisions) -/
+theorem forest_getSubtree {g g' : DG} {r : ℕ} {ρ₁ ρ₂ : ℕ → ℕ} (hf : IsForest g)
+    (h : gGetSubtree g r ρ₁ ρ₂ = some g') : IsForest g' := Graph.forest_getSubtree hf h
+
+/-- `remove_subtree`: `remove_nodes_from(descendants(r) + [r])` for a clone `r` -/
+theorem forest_removeSubtree {g g' : DG} {r : ℕ} (hf : IsForest g) (hr : r ≠ 0)
+    (h : gRemoveSubtree g r = some g') : IsForest g' := Graph.forest_removeSubtree hf hr h
+
+/-- `add_subtree`: `compose` with an edge parent → copy of the grafted root, then
+`remove_node_retain_edges` of that copy -/
+theorem forest_addSubtree {g sub g' : DG} {p : ℕ} {ρ : ℕ → ℕ} (hf : IsForest g) (hs : IsForest sub)
+    (h : gAddSubtree g sub p ρ = some g') : IsForest g' := Graph.forest_addSubtree hf hs h
+
+/-- `from_dict`: `extend_from_edge_list`, then removal of the indices `node_idx_rev` does not list,
+rebuilds the forest the dictionary describes (same live set, same edge list) -/
+theorem forest_fromDict {edges : List (ℕ × ℕ)} {live : List ℕ} (hf : IsForest { nodes := live, edges := edges }) :
+    IsForest (gFromDict edges live) ∧ (gFromDict edges live).nodes.Perm live ∧
+      (gFromDict edges live).edges = edges :=
+  ⟨Graph.forest_fromDict hf, Graph.gFromDict_spec hf⟩
+
+/-- **C07 (graph shape, step).**  A graph-level edit that does not raise leaves every live graph a rooted
+forest. -/
+theorem forest_step {sys sys' : GSys} {op : GOp} (hall : ∀ g ∈ sys, IsForest g) (hleg : GLegal op)
+    (hstep : gStep sys op = some sys') : ∀ g ∈ sys', IsForest g := Graph.forest_step hall hleg hstep
+
+/-- **C07 (graph shape, all histories).** -/
+theorem forest_reachable {ops : List GOp} {sys : GSys} (hleg : ∀ op ∈ ops, GLegal op)
+    (h : gRun [gInit] ops = some sys) : ∀ g ∈ sys, IsForest g := Graph.forest_reachable hleg h
+
+/-- what the invariant buys: the parent is unique, and there is no cycle (no node reaches itself along a
+non-empty path) -/
+theorem forest_parent_unique_acyclic {g : DG} (hf : IsForest g) :
+    (∀ p q v, (p, v) ∈ g.edges → (q, v) ∈ g.edges → p = q) ∧
+    (∀ v x, v ∈ g.nodes → (v, x) ∈ g.edges → ¬ Reach g x v) :=
+  ⟨fun _ _ _ hp hq => hf.parent_unique hp hq, fun _ _ hv he => hf.acyclic hv he⟩
+
+/-- the Boolean the driver evaluates on the model graph is the invariant -/
+theorem isForestB_iff {g : DG} : isForestB g = true ↔ IsForest g := Graph.isForestB_iff
+
+/-! ### non-vacuity (`Proofs/GraphExample.lean`) -/
+section
+open PhyModel.Graph.Ex
+
+example : IsForest g4 ∧ (∀ c ∈ [3, 1], c ≠ 5) ∧ gCreateRootNode g4 5 [3, 1] = none ∧
+    gCreateRootNode g4 5 [4] = some { nodes := [0, 1, 2, 3, 4, 5], edges := [(2, 1), (4, 3), (4, 2), (0, 5), (5, 4)] } := by
+  decide +kernel
+-- a child that is the node being created gives a self loop: the hypothesis of `forest_createRootNode` is needed
+example : ((gCreateRootNode g4 5 [5]).map isForestB) = some false := by decide +kernel
+example : IsForest g4 ∧ gGetSubtree g4 2 (· - 1) (· + 1) = some { nodes := [0, 1, 2], edges := [(2, 1), (0, 2)] } := by
+  decide +kernel
+example : IsForest g4 ∧ (2 : ℕ) ≠ 0 ∧ gRemoveSubtree g4 2 = some { nodes := [0, 3, 4], edges := [(0, 4), (4, 3)] } := by
+  decide +kernel
+example : IsForest g4 ∧ IsForest g2 ∧ gAddSubtree g4 g2 3 (· + 10) =
+    some { nodes := [0, 1, 2, 3, 4, 11, 12], edges := [(2, 1), (0, 4), (4, 3), (4, 2), (12, 11), (3, 12)] } := by
+  decide +kernel
+example : IsForest g5 ∧ gFromDict g5.edges g5.nodes = { nodes := [0, 2, 4, 7], edges := [(0, 4), (4, 7), (4, 2)] } := by
+  decide +kernel
+-- forest_step, forest_reachable: a history through every kind of graph-level edit
+example : (∀ op ∈ ops, GLegal op) ∧ gRun [gInit] ops =
+    some [{ nodes := [0, 3, 4, 2, 1], edges := [(0, 4), (4, 3), (1, 2), (3, 1)] }, gInit, g4, gInit] := by
+  decide +kernel
+
+end
+end GraphShape
 
 end PhyModel.Props.C07
